@@ -174,6 +174,13 @@ package callbacks
 //@   in callbacks.ConvertToAssignments
 //@   min-sites 5
 //@   assert hook-running-update: !stmt.SkipHooks [C10]
+//@ # An automatic 'now' in a map update only where the caller's map gives the field under neither spelling
+//@ # (Go field name or column name): a given key is what gets written (first of the five NowFunc sites).
+//@ site tracked-time-not-over-a-given-key
+//@   match calldyn Config.NowFunc
+//@   in callbacks.ConvertToAssignments
+//@   min-sites 5
+//@   assert map-gives-neither-spelling: defined(dbName) ==> value[field.Name] == nil && value[field.DBName] == nil [C10]
 //@ site update-respects-select
 //@   match calldyn local:assignValue
 //@   in callbacks.ConvertToAssignments
